@@ -182,6 +182,16 @@ fn check(ctx: &mut Ctx, f: Fmt, x: &LexNarsese, family: &str) {
         }
     }
     ctx.report.sample(|| J::obj().set("format", f.name()).set("string", f.l().format_narsese(x)).set("value", canon.clone()));
+    // history: a rejected input parsed on the same thread just before must not matter
+    if ctx.report.evaluations % 3 == 0 {
+        let text = f.l().format_narsese(x);
+        let cs: Vec<char> = text.chars().collect();
+        let cut: String = cs[..cs.len() * 2 / 3].iter().collect();
+        let r = observe(|| (f.l().parse(&cut).is_ok(), f.l().parse_term(&format!("{}{}", f.e().statement.brackets.0, cut)).is_ok()));
+        if let Obs::Ret((a, b)) = r {
+            ctx.report.bump(if a || b { "interleaved-truncated-inputs.accepted" } else { "interleaved-truncated-inputs.rejected" });
+        }
+    }
     if let Some(w) = failure(f, x) {
         let small = shrink(f, x);
         let w2 = failure(f, &small).unwrap_or(w);
